@@ -4,7 +4,7 @@
        <class>|nf=<non-finite fields>|trace=<step=class,...>|mis=<mismatching fields>
    Definitions only. *)
 From Coq Require Import String List Bool ZArith QArith Qabs Qminmax.
-From SpdVerif Require Import Base.NumOps Spec.ConfigSpec Gen.ConfigTables Model.ConfigTypes Model.Config Model.NumInst.
+From SpdVerif Require Import Base.NumOps Spec.ConfigSpec Gen.ConfigTables Gen.ConfigSites Model.ConfigTypes Model.Config Model.NumInst.
 Import ListNotations.
 Local Open Scope string_scope.
 
@@ -130,8 +130,8 @@ Definition report {A} (r : outcome (A * list nonfinite)) (trace : list (string *
 (* try_as_spdc on recorded oracle answers, compared with the implementation's setup (when it built one) *)
 Definition run_try_as_spdc (U : units Q) (minpos : Q) (t : otable) (c : spdc_cfg Q) (real : option (spdc Q)) : string :=
   let K := oracles_of_table t in
-  let r := try_as_spdc Q_ops U K minpos c in
-  report r (trace_try_as_spdc Q_ops K minpos c)
+  let r := try_as_spdc Q_ops U K minpos cfg_validates_wavelengths c in
+  report r (trace_try_as_spdc Q_ops K minpos cfg_validates_wavelengths c)
          (match r, real with Ok (s, nf), Some rs => check_spdc s nf rs | _, _ => [] end).
 
 (* try_as_optimum likewise *)
